@@ -1,6 +1,7 @@
 import RoaringModel.Lemmas.MiscStats
 import RoaringModel.Lemmas.BStoreBasic
 import RoaringModel.Lemmas.Dir
+import RoaringModel.Lemmas.FidelityCodec
 /-!
 # C20 — `statistics()` describes the set and the Roaring space rule (property theorems)
 
@@ -181,5 +182,26 @@ example :
   · intro c hc bs hs
     simp at hc
     rcases hc with rfl | rfl <;> simp at hs
+
+/-! ### the definition the driver executes: the single accumulating loop of statistics.rs:73-89 -/
+
+/-- **mirror.** `Bitmap.statisticsM` — one pass over the containers bumping the `let mut` counters, exactly as the
+    Rust does — returns the record of `Bitmap.statistics`, for EVERY value (no well-formedness needed). -/
+theorem C20_statistics_mirror_eq (b : Bitmap) : Bitmap.statisticsM b = Bitmap.statistics b :=
+  Fidelity.statisticsM_eq b
+
+/-- **C20 for the mirrored definition** (what the driver runs in `dump` / `stats`). -/
+theorem C20_mirror (b : Bitmap) (hwf : Bitmap.WF b) :
+    let st := Bitmap.statisticsM b
+    let sp := Spec.stats (Bitmap.elems b)
+    st.nContainers = sp.nContainers ∧ st.nArray = sp.nArray ∧ st.nBitset = sp.nBitset ∧ st.nRun = 0 ∧
+    st.valuesArray = sp.valuesArray ∧ st.valuesBitset = sp.valuesBitset ∧ st.valuesRun = 0 ∧
+    st.cardinality = sp.cardinality ∧ st.minValue = sp.minValue ∧ st.maxValue = sp.maxValue ∧
+    Bitmap.serializedSize b = sp.serializedSize := by
+  rw [C20_statistics_mirror_eq]; exact C20 b hwf
+
+/-- Non-vacuity: the loop on a two-chunk value (an array chunk and a second array chunk) -/
+example : Bitmap.statisticsM [⟨0, .array [1, 2, 70]⟩, ⟨3, .array [0, 65535]⟩]
+    = ⟨2, 2, 0, 0, 5, 0, 0, some 262143, some 1, 5⟩ := by decide
 
 end Roaring.C20
